@@ -98,7 +98,7 @@ def fscalar (v : Json) : Except String FVal := do
   | Json.num n => pure ⟨n.toFloat.toBits⟩
   | _ => throw "scalar"
 
-partial def parseFExpr (t : Json) : Except String FExpr := do
+partial def parseFExpr (t : Json) : Except String (FExpr FVal) := do
   let tag ← getStr t "t"
   match tag with
   | "leaf" => pure (.leaf (← getNat t "i"))
